@@ -10,13 +10,16 @@ package kernel
 import (
 	"bytes"
 	"fmt"
+	"os"
 	"runtime"
 	"strconv"
 	"sync"
 	"testing"
+	"time"
 
 	"github.com/MixinNetwork/mixin/common"
 	"github.com/MixinNetwork/mixin/crypto"
+	"github.com/MixinNetwork/mixin/logger"
 )
 
 func vnGoid() int64 {
@@ -321,6 +324,49 @@ func vnScenarioByName(name string) *vnScenario {
 			}
 			return w.snapshotAuto(sc.chains["B"], []*common.VersionedTransaction{sc.txs[s]}, sc.times[s])
 		}
+	case "M":
+		// a universal mint far enough after the epoch (batch > KernelNetworkLegacyEnding), with the
+		// previous and the current day's works and spaces aggregated for every node
+		mintDay := uint64(KernelNetworkLegacyEnding + 3)
+		mintTime := uint64(time.Unix(vnEpoch, 0).UnixNano()) + mintDay*OneDay + 8*uint64(time.Hour)
+		sc.prep = func(w *vnWorld, sc *vnScenario) {
+			day := mintTime / OneDay
+			for _, id := range w.ids {
+				if err := w.store.WriteRoundSpaceAndState(&common.RoundSpace{NodeId: id, Batch: 1 << 40, Round: 0}); err != nil {
+					w.t.Fatal(err)
+				}
+				mk := func(ts uint64, tag string) []*common.SnapshotWork {
+					return []*common.SnapshotWork{{Timestamp: ts, Hash: crypto.Blake3Hash([]byte(tag + id.String())), Signers: []crypto.Hash{id}}}
+				}
+				if err := w.store.WriteRoundWork(id, 0, mk((day-1)*OneDay+uint64(time.Hour), "w0"), true); err != nil {
+					w.t.Fatal(err)
+				}
+				if err := w.store.WriteRoundWork(id, 1, mk(day*OneDay+uint64(time.Hour), "w1"), true); err != nil {
+					w.t.Fatal(err)
+				}
+			}
+			e := w.chainIndexOf(w.node.electSnapshotNode(common.TransactionTypeMint, mintTime))
+			o := vnPick(w, e, 2)
+			sc.chains["A"], sc.chains["B"], sc.chains["C"] = e, o[0], o[1]
+			cur, err := w.store.ReadCustodian(mintTime)
+			if err != nil {
+				w.t.Fatal(err)
+			}
+			mt := w.node.buildUniversalMintTransaction(cur, mintTime, false)
+			if mt == nil {
+				w.t.Fatalf("no mint available in scenario M")
+			}
+			if err := mt.SignRaw(w.signers[e].PrivateSpendKey); err != nil {
+				w.t.Fatal(err)
+			}
+			sc.txs["X"], sc.times["X"] = mt, mintTime
+			sc.txs["Y"], sc.times["Y"] = sc.btcDeposit(w, "Y"), mintTime+uint64(time.Second)
+			w.cacheTxs(mt, sc.txs["Y"])
+		}
+		sc.build = func(w *vnWorld, s string) *common.Snapshot {
+			ci := map[string]string{"X": "A", "Y": "B"}[s]
+			return w.snapshotAuto(sc.chains[ci], []*common.VersionedTransaction{sc.txs[s]}, sc.times[s])
+		}
 	case "T":
 		sc.prep = func(w *vnWorld, sc *vnScenario) {
 			sc.chains["A"], sc.chains["B"] = 1, 2
@@ -341,6 +387,15 @@ func vnScenarioByName(name string) *vnScenario {
 		}
 	}
 	return sc
+}
+
+func (sc *vnScenario) snapshotOf(r *vnRun, s string) *common.Snapshot {
+	if sn := r.snaps[s]; sn != nil {
+		return sn
+	}
+	sn := sc.build(r.w, s)
+	r.snaps[s] = sn
+	return sn
 }
 
 func (sc *vnScenario) chainId(w *vnWorld, c string) crypto.Hash {
@@ -445,6 +500,9 @@ type vnWalk struct {
 func TestVerifPipelineReplay(t *testing.T) {
 	tr := vOpenTrace(t)
 	defer tr.Close()
+	if os.Getenv("VERIF_LOG") != "" {
+		logger.SetLevel(logger.VERBOSE)
+	}
 	var cases struct {
 		Walks []vnWalk `json:"walks"`
 	}
@@ -483,6 +541,9 @@ func vnReplayWalk(t *testing.T, tr *vTrace, wi int, wk vnWalk) {
 			}
 			call, task := run.advance(st.S)
 			m := vM{"ev": "Call", "s": st.S, "call": call}
+			if call == "WriteSnapshot" {
+				m["pos"] = int(w.proxy.lastPos)
+			}
 			if call == "Return" {
 				m["res"] = task.res
 				if task.res == "panic" {
@@ -490,6 +551,56 @@ func vnReplayWalk(t *testing.T, tr *vTrace, wi int, wk vnWalk) {
 				}
 			}
 			tr.Emit(m)
+		case "Race":
+			// S = "X,Y": both handlers run freely; the storage write of the first one is slow and the
+			// process stops as soon as it returned. The proxy records the commit order.
+			if !up || w.node == nil {
+				continue
+			}
+			names := []string{string(st.S[0]), string(st.S[2])}
+			w.proxy.sched = nil
+			w.proxy.raceCalls = nil
+			w.proxy.racing = true
+			w.proxy.slowHash = sc.snapshotOf(run, names[0]).Hash
+			w.proxy.stopAfterSlow = true
+			w.proxy.slowEntered = make(chan struct{})
+			gids := map[int64]string{}
+			var gmu sync.Mutex
+			var wg sync.WaitGroup
+			for i, n := range names {
+				snap := sc.snapshotOf(run, n)
+				wg.Add(1)
+				go func(i int, n string, snap *common.Snapshot) {
+					defer wg.Done()
+					defer func() { recover() }()
+					gmu.Lock()
+					gids[vnGoid()] = n
+					gmu.Unlock()
+					if i == 1 {
+						// starts once the slow handler is inside its snapshot write (holding the topology lock)
+						select {
+						case <-w.proxy.slowEntered:
+						case <-time.After(5 * time.Second):
+						}
+					}
+					chain := w.node.getOrCreateChain(snap.NodeId)
+					chain.cosiHandleFinalization(&CosiAction{Action: CosiActionFinalization, PeerId: snap.NodeId, SnapshotHash: snap.Hash, Snapshot: snap})
+				}(i, n, snap)
+			}
+			wg.Wait()
+			for _, c := range w.proxy.raceCalls {
+				m := vM{"ev": "Call", "s": gids[c.goid], "call": c.call, "race": true}
+				if c.call == "WriteSnapshot" {
+					m["pos"] = int(c.pos)
+				}
+				tr.Emit(m)
+			}
+			w.proxy.racing = false
+			w.proxy.stopped = false
+			w.proxy.stopAfterSlow = false
+			w.close()
+			up = false
+			tr.Emit(vM{"ev": "Crash"})
 		case "Crash":
 			run.crash()
 			up = false
